@@ -5,6 +5,10 @@ package serverinterceptors
 import (
 	"context"
 	"encoding/json"
+	"errors"
+	"fmt"
+	"io"
+	"net/http"
 	"sync"
 	"testing"
 	"time"
@@ -18,6 +22,7 @@ import (
 
 type verifHandlerSpec struct {
 	T    string `json:"t"`    // ret | panic
+	PV   string `json:"pv"`   // panic: kind of the panic value
 	Resp *int   `json:"resp"` // nil response when absent
 	Code int    `json:"code"` // 0: nil error, else status.Error(code, ...)
 }
@@ -76,6 +81,47 @@ const (
 	verifHangLimit   = 2 * time.Second
 )
 
+// verifErr is a custom error type; a nil *verifErr in an interface is a non-nil panic value.
+type verifErr struct{ msg string }
+
+func (e *verifErr) Error() string { return e.msg }
+
+// verifPanic panics with a value of the asked kind. The runtime errors are raised by really faulty code, not
+// by panic().
+func verifPanic(pv string) {
+	switch pv {
+	case "", "string":
+		panic("verif: scripted panic")
+	case "error":
+		panic(errors.New("verif: scripted error panic"))
+	case "wrapped":
+		panic(fmt.Errorf("verif: wrapped: %w", io.ErrUnexpectedEOF))
+	case "nilmap":
+		var m map[string]int
+		m["k"] = 1 // assignment to entry in nil map
+	case "nilptr":
+		var p *verifErr
+		_ = p.msg // nil pointer dereference
+	case "index":
+		s := []int{}
+		i := len(pv)
+		_ = s[i] // index out of range
+	case "status":
+		panic(status.Error(codes.NotFound, "verif: status carried by a panic value"))
+	case "abort":
+		panic(http.ErrAbortHandler)
+	case "custom":
+		panic(struct{ A, B int }{1, 2})
+	case "typednil":
+		var e *verifErr
+		panic(error(e))
+	case "nil":
+		var v any
+		panic(v) // panic(nil): go.mod's go 1.19 keeps the old meaning (recover() returns nil)
+	}
+	panic("verif: unknown panic value kind " + pv)
+}
+
 func verifRun(c *verifCase) map[string]any {
 	entered := make(chan struct{})
 	release := make(chan struct{})
@@ -85,7 +131,7 @@ func verifRun(c *verifCase) map[string]any {
 		close(entered)
 		<-release
 		if c.H.T == "panic" {
-			panic("verif: scripted panic")
+			verifPanic(c.H.PV)
 		}
 		var resp interface{}
 		if c.H.Resp != nil {
@@ -226,7 +272,7 @@ func verifRunMulti(c *verifCase) map[string]any {
 			close(k.entered)
 			<-k.release
 			if spec.T == "panic" {
-				panic("verif: scripted panic")
+				verifPanic(spec.PV)
 			}
 			var resp interface{}
 			if spec.Resp != nil {
